@@ -21,6 +21,7 @@ Sidecar syntax (one file per source file, name <file>.contract):
   @body-start <fnpath>              whole lines directly after the opening brace line of the fn
   @loop-body <fnpath> <kind>#<n>    whole lines directly after the opening brace line of the loop body
   @loop-end <fnpath> <kind>#<n>     whole lines directly before the closing brace line of the loop body
+  @after-loop <fnpath> <kind>#<n>   whole lines directly after the closing brace line of the loop
   @wrap-arg <fnpath> /regex(/ <count> <i>   wraps argument i of the matched call: prefix text, a line `---`, suffix text;
                                     `$ARGn` in the text stands for the source text of argument n; a leading `&` of the
                                     argument stays outside the wrapper unless <i> is written `<i>&`
@@ -122,13 +123,39 @@ N2_RULES = {
         'open': re.compile(r'^(\s*)let initialize_write = &mut \|([^|]*)\| -> Result<\(\), Box<dyn Error>> \{\s*$'),
         'params': 'this: &mut Server, options: &mut [TransferOption], to: &SocketAddr, file_path: &PathBuf',
         'args': 'self, options, to, file_path',
+        # other variables of the enclosing function: passed as well when the closure body mentions them
+        'optional': [('filename', 'filename: &String', '&filename')],
     },
 }
+
+
+def _n2_effective(rule, text):
+    """the rule with the optional captures that the closure body really uses"""
+    lines = text.split('\n')
+    for i, line in enumerate(lines):
+        m = rule['open'].match(line)
+        if m:
+            ind = m.group(1)
+            body = []
+            for l in lines[i + 1:]:
+                if l == ind + '};':
+                    break
+                body.append(l)
+            body = '\n'.join(body)
+            r = dict(rule)
+            for (name, param, arg) in rule.get('optional', []):
+                if re.search(r'\b%s\b' % name, body):
+                    r['params'] += ', ' + param
+                    r['args'] += ', ' + arg
+            return r
+    return rule
 
 
 def normalise(fname, text):
     out, notes = [], []
     n2 = N2_RULES.get(fname)
+    if n2:
+        n2 = _n2_effective(n2, text)
     n2_indent = None
     for n, line in enumerate(text.split('\n'), 1):
         if n2:
@@ -286,7 +313,7 @@ def _plan_block(src, b):
                 suf = Block(b.bid, b.directive, b.args, subst(b.lines[sep + 1:]), b.sidecar, b.sidecar_line + sep + 1)
                 ins.append((x, 'inline', pre))
                 ins.append((y, 'inline', suf))
-        elif d in ('loop-body', 'loop-end'):
+        elif d in ('loop-body', 'loop-end', 'after-loop'):
             fnpath, spec = split_args(b.args)
             pos = src.find_loop(fnpath, spec)
             k, par = pos, 0
@@ -301,6 +328,9 @@ def _plan_block(src, b):
                 k += 1
             if d == 'loop-body':
                 ins.append((line_end(text, k), 'lines', b))
+            elif d == 'after-loop':
+                from rustscan import match_brace
+                ins.append((line_end(text, match_brace(src.m, k)), 'lines', b))
             else:
                 from rustscan import match_brace
                 ins.append((line_start(text, match_brace(src.m, k)), 'lines', b))
@@ -376,7 +406,7 @@ def fn_exists(text, fnpath):
         return False
 
 
-HINT_DIRECTIVES = ('before', 'after', 'body-start', 'loop-body', 'loop-end')
+HINT_DIRECTIVES = ('before', 'after', 'body-start', 'loop-body', 'loop-end', 'after-loop')
 
 
 def weave_all(repo_src, contracts_dir, spec_dir, out_dir, extra_blocks=None, skip_hints_for=None, quarantine=None, strip=None):
